@@ -32,7 +32,8 @@ import (
 	"go.uber.org/zap"
 )
 
-const vWait = 20 * time.Second
+// every wait below is for a goroutine hand-off that normally takes microseconds
+const vWait = 8 * time.Second
 
 type vCmd struct {
 	err error
@@ -440,9 +441,10 @@ func (s *vSim) close() {
 }
 
 type vGen struct {
-	r *rand.Rand
-	w *bufio.Writer
-	n int
+	r   *rand.Rand
+	w   *bufio.Writer
+	n   int
+	bad int // cases in which an expected request / goroutine never showed up
 }
 
 var vNames = []string{"a", "b", "c", "d", "e_1"}
@@ -517,7 +519,14 @@ func (g *vGen) simCase(perturb bool, steps int) {
 				}
 			}
 		}
-		add(6, func() { emit("gc", s.opGC()) })
+		// the GC matters when something is waiting to be restarted; otherwise it is a no-op worth a rare check
+		wGC := 1
+		for _, m := range s.nodes() {
+			if m.state == nodeStateDead || m.state == nodeStateCanceled {
+				wGC = 10
+			}
+		}
+		add(wGC, func() { emit("gc", s.opGC()) })
 		for _, in := range s.live {
 			in := in
 			n := s.nodeByDNSafe(in.dn)
@@ -555,7 +564,11 @@ func (g *vGen) simCase(perturb bool, steps int) {
 			} else {
 				add(wR, func() { emit("run", s.opRun(in, []string{"a"})) })
 			}
-			add(3, func() { emit("ret", s.opRet(in, vRetKinds[r.Intn(len(vRetKinds))])) })
+			wRet := 3
+			if depth == 0 {
+				wRet = 1 // a root that keeps dying keeps the tree at one node
+			}
+			add(wRet, func() { emit("ret", s.opRet(in, vRetKinds[r.Intn(len(vRetKinds))])) })
 		}
 		if r.Intn(40) == 0 {
 			add(3, func() { emit("kill", "res="+vGuard(func() { s.sup.processKill() })) })
@@ -572,13 +585,31 @@ func (g *vGen) simCase(perturb bool, steps int) {
 			ns := s.nodes()
 			n := ns[r.Intn(len(ns))]
 			dn := n.dn()
-			add(5, func() {
-				st := nodeState(r.Intn(5))
+			setOne := func(n *node, st nodeState) {
 				n.state = st
 				if st == nodeStateDead || st == nodeStateCanceled {
 					n.ctxC()
 				}
-				emit("set", fmt.Sprintf("dn=%s st=%d res=ok", dn, int(st)))
+				emit("set", fmt.Sprintf("dn=%s st=%d res=ok", n.dn(), int(st)))
+			}
+			add(5, func() { setOne(n, nodeState(r.Intn(5))) })
+			// a whole subtree (or the whole tree) put into mostly restartable states: GC passes that restart several
+			// subtrees at once, eligible nodes below eligible nodes, live goroutines whose node disappears
+			add(4, func() {
+				top := dn
+				if r.Intn(3) == 0 {
+					top = "root"
+				}
+				restartable := []nodeState{nodeStateDead, nodeStateDead, nodeStateCanceled, nodeStateCanceled, nodeStateDone, nodeStateDone, nodeStateHealthy, nodeStateNew}
+				// half of the time the top node itself is left alone, so that its children are restarted side by side
+				keepTop := r.Intn(2) == 0
+				for _, m := range ns {
+					if (m.dn() == top && !keepTop) || strings.HasPrefix(m.dn(), top+".") {
+						if r.Intn(5) != 0 {
+							setOne(m, restartable[r.Intn(len(restartable))])
+						}
+					}
+				}
 			})
 			add(2, func() { n.ctxC(); emit("cancel", "dn="+dn+" res=ok") })
 			add(3, func() {
@@ -613,6 +644,7 @@ func (g *vGen) simCase(perturb bool, steps int) {
 		}
 	}
 	if s.bad != "" {
+		g.bad++
 		fmt.Fprintf(g.w, "bad %s why=%s\n", cid, strings.ReplaceAll(s.bad, " ", "_"))
 	}
 	s.close()
@@ -643,10 +675,11 @@ func TestVerifSupervisorSim(t *testing.T) {
 	if os.Getenv("VERIF_TIER") == "thorough" {
 		nPure, nPert, steps = 1500, 2500, 90
 	}
-	for i := 0; i < nPure; i++ {
+	// a supervisor that loses requests makes every case wait for its timeout: three such cases are evidence enough
+	for i := 0; i < nPure && g.bad < 3; i++ {
 		g.simCase(false, steps/2+g.r.Intn(steps))
 	}
-	for i := 0; i < nPert; i++ {
+	for i := 0; i < nPert && g.bad < 3; i++ {
 		g.simCase(true, steps/2+g.r.Intn(steps))
 	}
 }
